@@ -335,6 +335,14 @@ def run_solver_case(ctx, case):
                 S = solver.solve(instance)
             elif api == "solve_dispatcher":
                 d = Dispatcher(instance, ready_operations_filter=solver.ready_operations_filter)
+                if rule["type"] == "observer_mwkr" and case["seed"] % 2:
+                    # feature observers that track only the operations already exist on the caller's
+                    # dispatcher before the observer-based rule is asked for the first time
+                    from job_shop_lib.dispatching.feature_observers import (DurationObserver, FeatureType,
+                                                                           IsReadyObserver)
+                    DurationObserver(d, feature_types=[FeatureType.OPERATIONS])
+                    IsReadyObserver(d, feature_types=[FeatureType.OPERATIONS])
+                    ctx.count("operations_only_observers_present_before_the_observer_based_rule")
                 if case["seed"] % 3 == 2:
                     # the caller's dispatcher was used before and reset
                     tr0 = Tracker(inst, d)
@@ -355,6 +363,19 @@ def run_solver_case(ctx, case):
                     d.dispatch(ops[o], rng.choice(rr.op_machines[o]))
                 N = N - pre
                 ctx.count("solver_took_over_partial_schedule")
+                if case["seed"] % 3 == 1 and N >= 1:
+                    # a deep copy of the partially filled dispatcher is advanced on its own before
+                    # the solver continues on the original
+                    import copy
+                    d.unsubscribe(state["tracker"].obs)     # the harness' own recorder stays with the original
+                    dup = copy.deepcopy(d)
+                    d.subscribe(state["tracker"].obs)
+                    rr2 = state["tracker"].r.clone()
+                    for _ in range(rng.randint(1, N)):
+                        o2 = rng.choice(rr2.ready()); m2 = rng.choice(rr2.op_machines[o2])
+                        dup.dispatch(dup.instance.jobs[rr2.op_job[o2]][rr2.op_pos[o2]], m2)
+                        rr2.apply(o2, m2)
+                    ctx.count("copies_advanced_before_the_solver_continued")
                 S = solver.solve(instance, d)
             else:
                 S = solver(instance)
